@@ -172,6 +172,21 @@ def closeConnection (σ : Srv) (sid : Nat) : Res Srv := do
 structure Codec where
   dec : Nat → List Nat → Option (List Nat)
   encLen : Nat → Nat → Nat
+  /-- inputs on which the real `Decode` does not return at all (a Go panic inside the decoder, e.g. an inverse
+      alphabet table that does not cover every octet) -/
+  panics : Nat → List Nat → Bool := fun _ _ => false
+
+/-- the decoders are total functions: `Decode` returns (a value or an error) on every input.  This is the explicit
+    hypothesis of the no-panic theorems; the harness ties it to the real decoders by an exhaustive sweep (every single
+    octet and every pair of octets, every registered codec) and by recording `PANIC` oracle entries otherwise. -/
+def Codec.Total (cd : Codec) : Prop := ∀ c i, cd.panics c i = false
+
+/-- one call of `enc.FromCode(code).Decode(input)`: panics where the decoder does -/
+def Codec.decode (cd : Codec) (c : Nat) (i : List Nat) : Res (Option (List Nat)) :=
+  if cd.panics c i then .panic else .ok (cd.dec c i)
+
+theorem Codec.decode_total {cd : Codec} (h : cd.Total) (c : Nat) (i : List Nat) : cd.decode c i = .ok (cd.dec c i) := by
+  unfold Codec.decode; rw [h c i]; rfl
 
 def asciiLower (b : Nat) : Nat := if 65 ≤ b ∧ b ≤ 90 then b + 32 else b
 def asciiUpper (b : Nat) : Nat := if 97 ≤ b ∧ b ≤ 122 then b - 32 else b
@@ -324,11 +339,14 @@ def decodeRequest (cd : Codec) (code : Nat) (needsUser hasReq : Bool) (up : Nat)
   | none => pure none
   | some (body, uid) =>
     if code = 118 then       -- 'v'
-      pure ((cd.dec 84 body).bind fun d => (le32 d).map fun p => Req.version p.1)
+      do let r ← cd.decode 84 body
+         pure (r.bind fun d => (le32 d).map fun p => Req.version p.1)
     else if code = 111 then  -- 'o'
-      pure ((cd.dec 84 body).bind (decodeOptionsBody uid))
+      do let r ← cd.decode 84 body
+         pure (r.bind (decodeOptionsBody uid))
     else if code = 114 then  -- 'r'
-      pure ((cd.dec 84 body).bind fun d => (le32 d).map fun p => Req.fragTest uid p.1)
+      do let r ← cd.decode 84 body
+         pure (r.bind fun d => (le32 d).map fun p => Req.fragTest uid p.1)
     else if code = 121 then  -- 'y'
       if body.length = 0 then pure none else do
         let c ← idx body 0
@@ -336,7 +354,8 @@ def decodeRequest (cd : Codec) (code : Nat) (needsUser hasReq : Bool) (up : Nat)
     else if code = 122 then  -- 'z'
       pure (some (.upTest uid body))
     else if code = 99 then   -- 'c'
-      pure ((cd.dec up body).bind (decodePacketBody uid))
+      do let r ← cd.decode up body
+         pure (r.bind (decodePacketBody uid))
     else pure none
 
 /-! ### answers -/
